@@ -166,6 +166,19 @@ def run(rep: Report, tier: str) -> None:
 	rebind = di.method('rebind')
 	seq = [(n.lineno, n.func.attr) for n in walk_no_nested(rebind.node) if isinstance(n, ast.Call) and isinstance(n.func, ast.Attribute) and n.func.attr in ('bind', 'unbind')]
 	rb.check([a for _, a in sorted(seq)] == ['unbind', 'bind'], 'rebind-order', rebind.where, f'rebind must unbind (when bound) and then bind: {sorted(seq)}')
+	# ... and nothing but `is the symbol bound` decides whether the old binding (with its instance) is discarded: a shortcut on the injector
+	# (`same factory -> keep`) keeps the instance of the previous generation, so a resolve after rebind hands out the old object
+	inj_param = rebind.params()[2] if len(rebind.params()) > 2 else 'injector'
+	for n in walk_no_nested(rebind.node):
+		if isinstance(n, ast.Call) and isinstance(n.func, ast.Attribute) and n.func.attr in ('bind', 'unbind') and isinstance(n.func.value, ast.Name) and n.func.value.id == 'self':
+			conds = [(unparse(a), p_) for a, p_ in atoms(rebind.node, n)]
+			if n.func.attr == 'bind':
+				rb.check(not conds, 'rebind-binds-unconditionally', (rebind.module.relpath, n.lineno), f'rebind registers the new injector only under {conds}', unparse(n))
+			else:
+				on_inj = [c_ for c_ in conds if inj_param in {x.id for x in ast.walk(ast.parse(c_[0], mode="eval")) if isinstance(x, ast.Name)}]
+				rb.check(not on_inj, 'rebind-discards-when-bound', (rebind.module.relpath, n.lineno), f'whether rebind discards the old binding depends on the injector ({on_inj}), not only on the symbol being bound', unparse(n))
+	early = [n for n in walk_no_nested(rebind.node) if isinstance(n, ast.Return)]
+	rb.check(not early, 'rebind-has-no-shortcut', (rebind.module.relpath, early[0].lineno) if early else rebind.where, 'rebind returns early on some path: the symbol then keeps its previous binding generation — in particular the instance already created — although rebind promises a fresh registration (resolve after rebind(sym, same_factory) returns the old object; a LazyDI proxy registered under the same factory is never re-created)', unparse(early[0])[:80] if early else None)
 	res = di.method('resolve')
 	rx = X(res)
 	creates = [n for n in nodes(rx, ast.Assign) if isinstance(n.targets[0], ast.Subscript) and unparse(n.targets[0].value) == 'self.__instances']
@@ -384,6 +397,40 @@ def run(rep: Report, tier: str) -> None:
 			via_full = any((a_ in expected_names and b_ in reach and b_ not in zipped) or (b_ in expected_names and a_ in reach and a_ not in zipped) for a_, b_ in edges)
 			rc.check(direct or via_full, 'assert-invoke:count-vs-expected', ai.where, f'__assert_invoke compares lengths {edges} but never the number of remaining arguments (len({vararg_})) with the number of expected parameters ({sorted(expected_names)}) except through a zip()-built list, which is as long as the SHORTER of the two: a call with too few arguments passes the check and fails later with TypeError (or silently uses a default) instead of ValueError')
 		rc.check(any(f'len({vararg_})' in l for l in lens), 'assert-invoke:compares-argument-count', ai.where, f'__assert_invoke never compares the number of remaining arguments (len({vararg_})) with the number of unresolved parameters (length tests: {lens}): surplus arguments are not reported as ValueError')
+
+	# ---- (c2) combine: the right operand's BINDINGS win, not only its instances --------------------------------------------------
+	# The container keeps two layers per symbol (factory, created instance) — LazyDI a third (by-name definition). Merging each layer on its own lets a
+	# layer the right operand has not filled yet lose against the left operand's: left resolved A (instance), right rebinds A (no instance yet) ->
+	# the merged container still hands out the left instance. So the left instances must be filtered by the right operand's factories, and the left
+	# materialised bindings by the right operand's definitions.
+	rw = rep.rule('C19/combine-right-bindings-win', 'DI.combine drops the left operand\'s instance of every symbol the right operand has a factory for; LazyDI.combine drops the left operand\'s materialised binding of every symbol the right operand defines by name', floor=2)
+
+	def membership_tests(f, store: str) -> list[ast.Compare]:
+		return [n for n in ast.walk(f.node) if isinstance(n, ast.Compare) and len(n.ops) == 1 and isinstance(n.ops[0], (ast.In, ast.NotIn)) and unparse(n.comparators[0]) == f'other.{store}']
+
+	dc = di.method('combine')
+	tests = membership_tests(dc, '__injectors')
+	inst_writes = [n for n in ast.walk(dc.node) if isinstance(n, ast.Assign) and any(unparse(t).endswith('.__instances') for t in n.targets)]
+	def drops(n: ast.AST, store: str) -> bool:
+		return any((isinstance(x, ast.Delete) and store in unparse(x)) or (isinstance(x, ast.Call) and isinstance(x.func, ast.Attribute) and x.func.attr in ('pop', 'unbind') and (store in unparse(x.func.value) or x.func.attr == 'unbind')) for x in ast.walk(n))
+
+	def loops_over(f, store: str) -> list[ast.For]:
+		return [n for n in ast.walk(f.node) if isinstance(n, ast.For) and unparse(n.iter) in (f'other.{store}', f'other.{store}.keys()', f'list(other.{store})', f'list(other.{store}.keys())', f'other.{store}.items()')]
+
+	# a local that feeds the write (`kept = {... if symbol not in other.__injectors}` ... `x.__instances = kept | other.__instances`) is part of it
+	fed = {n_.id for w in inst_writes for n_ in ast.walk(w.value) if isinstance(n_, ast.Name)}
+	inst_writes = inst_writes + [a for a in ast.walk(dc.node) if isinstance(a, (ast.Assign, ast.AnnAssign)) and a.value is not None and any(isinstance(t, ast.Name) and t.id in fed for t in (a.targets if isinstance(a, ast.Assign) else [a.target]))]
+	filtered = any(any(t_ is c_ for c_ in ast.walk(w)) for w in inst_writes for t_ in tests) \
+		or any(isinstance(n, (ast.If, ast.For)) and any(t_ is c_ for c_ in ast.walk(n)) and drops(n, '__instances') for n in ast.walk(dc.node) for t_ in tests) \
+		or any(drops(n, '__instances') for n in loops_over(dc, '__injectors'))
+	rw.check(filtered, 'DI.combine:instances-filtered-by-right-factories', dc.where, 'DI.combine merges __instances and __injectors independently: for a symbol the LEFT operand has already resolved and the RIGHT operand binds to another factory (not resolved yet) the merged container has the right factory but the left instance, and resolve() returns the instance — the right operand\'s binding does not win (l.bind(A, A); l.resolve(A); r.bind(A, B); l.combine(r).resolve(A) is an A)')
+	lc = lazy.method('combine')
+	if lc is None:
+		rw.skip('LazyDI.combine', lazy.where, 'LazyDI.combine vanished (reported by C19/clone-owns-storage)')
+	else:
+		tests = membership_tests(lc, '__definitions')
+		removes = [n for n in ast.walk(lc.node) if isinstance(n, (ast.If, ast.For, ast.ListComp, ast.DictComp)) and any(t_ is c_ for t_ in tests for c_ in ast.walk(n)) and drops(n, '__in')] + [n for n in loops_over(lc, '__definitions') if drops(n, '__in')]
+		rw.check(bool(removes), 'LazyDI.combine:materialised-filtered-by-right-definitions', lc.where, 'LazyDI.combine merges the by-name definitions but keeps every binding the left operand has already materialised: resolve() consults the by-name layer only when the materialised layer has no entry, so a symbol the right operand defines by name still resolves to the left operand\'s factory and instance')
 
 	# ---- (d) wiring ------------------------------------------------------------------------------------------------------------
 	rd = rep.rule('C19/per-module-container', 'the per-module DI is the shared container combined with a fresh LazyDI built from the module dependency definitions', floor=1)
